@@ -56,13 +56,13 @@ RULE = (
 STATES_MEASURE = "distinct (sub-command, option set, expression source, document source, sink, outcome class, fault kinds) tuples"
 REAL = ["jsonpath.cli (setup_parser, handlers, main)", "argparse", "jsonpath library behind the handlers", "json"]
 STUB = [
-    "SimProc: in-process main() with sys.argv/stdin/stdout/stderr swapped and exit status captured",
-    "SimFS: in-memory files bound via argparse.open",
+    "process stub: jsonpath/__main__.py run through runpy with its own argv, named std streams, a scratch working directory holding the run's files, freshly imported CLI modules",
     "real python -m jsonpath subprocess only in the 'subprocess' configuration",
 ]
 ASSUMPTIONS = [
     "'the corresponding library call' is findall / pointer.resolve / patch.apply on a stream over the same bytes with the same flags",
-    "'the JSON serialisation' is json.dumps(result, indent=2 if --pretty else None) with either ensure_ascii setting, optionally followed by one newline",
+    "'the JSON serialisation' is any json.dumps rendering of the returned value: on one line without --pretty, indented with it; either ensure_ascii setting, either member order, optionally followed by one newline",
+    "a JSON input file reaches the library as bytes; standard input as text or as the bytes underneath; an expression file's surrounding white space / final line break may or may not belong to the expression",
     "inputs on which the library itself raises outside its documented error families are counted as skipped_library_nonfamily, not judged",
     "I/O errors (EIO, ENOSPC, missing files) are not injected: the statement gives them no meaning",
     "expressions contain no newline characters (the one-line clause would otherwise depend on echoing user text)",
@@ -299,9 +299,14 @@ def _expr_readings(plan: Dict[str, Any]) -> List[str]:
     return out
 
 
-def oracle(plan: Dict[str, Any], doc_bytes: bytes, patch_bytes: bytes, expr: Optional[str] = None) -> Tuple[str, Any]:
-    """('ok', result) | ('reject', family name) | ('skip', why)."""
+def oracle(plan: Dict[str, Any], doc_bytes: bytes, patch_bytes: bytes, expr: Optional[str] = None,
+           doc_src: Optional[str] = None) -> Tuple[str, Any]:
+    """('ok', result) | ('reject', family name) | ('skip', why).
+
+    *doc_src* says as which kind of stream the document reaches the library call: "file" = bytes, anything
+    else = text decoded as UTF-8 (default: bytes for -f, text for standard input, as the tool does today)."""
     cmd = plan["cmd"]
+    plan = dict(plan, doc_src=doc_src or plan["doc_src"])
     ue = "--no-unicode-escape" not in plan["gopts"]
     ud = "-u" in plan["sopts"] or "--uri-decode" in plan["sopts"]
     if expr is None:
@@ -390,6 +395,7 @@ def _serialisations(result: Any, pretty: bool) -> List[bytes]:
     layouts: List[Dict[str, Any]] = (
         [{"indent": i} for i in (2, 4, 1, 3, "\t")] if pretty else [{}, {"separators": (",", ":")}]
     )
+    layouts = layouts + [dict(kw, sort_keys=True) for kw in layouts]  # member order is not part of a JSON value
     for kw in layouts:
         for ea in (True, False):
             try:
@@ -527,8 +533,11 @@ def execute(spec: Dict[str, Any], ctx: Ctx) -> None:
     if len(readings) > 1:
         ctx.count("probe.expression_file_readings_differ")
     first: Optional[Violation] = None
-    for ri, reading in enumerate(readings):
-        verdict, detail = oracle(plan, doc_bytes, patch_bytes, reading)
+    # "the corresponding library call" receives the document as a stream.  A JSON input *file* is bytes (any
+    # encoding JSON allows); for standard input the tool may hand over text (as today) or the bytes underneath
+    kinds = ["file"] if plan["doc_src"] == "file" else ["stdin", "file"]
+    for ri, (reading, kind) in enumerate((r, k) for r in readings for k in kinds):
+        verdict, detail = oracle(plan, doc_bytes, patch_bytes, reading, kind)
         if ri == 0:
             ctx.log.add("oracle", verdict, detail if verdict != "ok" else core.short(detail, 80))
             outcome_class = verdict if verdict != "reject" else f"reject:{detail}"
@@ -536,7 +545,7 @@ def execute(spec: Dict[str, Any], ctx: Ctx) -> None:
         v = _judge(ctx if ri == 0 else None, plan, res, produced, verdict, detail, fired, shown)
         if v is None:
             if ri:
-                ctx.count("probe.accepted_other_file_reading")
+                ctx.count("probe.accepted_other_reading_or_stream_kind")
             first = None
             break
         if first is None:
